@@ -313,6 +313,8 @@ func c08Classify(p c08Prog, variants []c08Obs) (key, detail string) {
 		return strings.Contains(o.Err+o.SVG, "bad arguments") && strings.Contains(o.Err+o.SVG, "property")
 	}):
 		return "parseFontProps-error-choice", "font with several bad properties reports a different one from run to run (parseFontProps ranges over arg.Pairs)"
+	case (differ["trace"] || differ["svg"]) && regexp.MustCompile(`\]\)?\s*\*\s*\d`).MatchString(p.Src) && strings.Contains(p.Src, "{"):
+		return "deepCopy-map-key-order", "a map that was deep-copied by array repetition prints / iterates its keys in a different order from run to run (evaluator.deepCopy must reproduce the source's Order)"
 	case differ["trace"] || differ["svg"] || differ["err"] || differ["class"]:
 		if strings.Contains(p.Src, "{") && regexp.MustCompile(`\{[^}]*:\s*\(`).MatchString(p.Src) {
 			return "evalMapLiteral-eval-order", "the values of a map literal are evaluated in a different order from run to run (evalMapLiteral ranges over m.Pairs): effects and the reported error vary"
@@ -814,6 +816,47 @@ func genEquals(rng *rand.Rand) c08Prog {
 		Case: LstOf(append([]SX{Sym("equals")}, ents...)).String()}
 }
 
+// genDeepCopy: array repetition deep-copies its elements (evaluator.deepCopy);
+// the copies of maps with 4-8 keys are then printed, ranged over, compared,
+// type-asserted out of any, and mutated — every one of these exposes the key
+// order of the COPY (deepCopy must reproduce the source's Order).
+func genDeepCopy(rng *rand.Rand) c08Prog {
+	n := c08PickN(rng)
+	perm := rng.Perm(n)
+	var m1, m2 strings.Builder
+	for i := 0; i < n; i++ {
+		fmt.Fprintf(&m1, "%s:%d ", c08Keys[perm[i]], i)
+		fmt.Fprintf(&m2, "%s:%d ", c08Keys[(perm[i]+3)%len(c08Keys)], i*7)
+	}
+	reps := 2 + rng.Intn(3)
+	var b strings.Builder
+	fmt.Fprintf(&b, "m := {%s}\nm2 := {%s}\n", m1.String(), m2.String())
+	fmt.Fprintf(&b, "row := [m] * %d\nprint row\nprint row[1] (typeof row) (len row)\n", reps)
+	b.WriteString("for k := range row[1]\n    print k row[1][k]\nend\n")
+	b.WriteString("print (row[0] == row[1]) (row[1] == m) (row[0] == m2)\n")
+	shapes := []string{
+		// nested arrays of maps
+		"nested := [[m m2] [m]] * 2\nprint nested\nprint nested[2][1] nested[3][0] (typeof nested)\nfor k := range nested[3][0]\n    print k\nend\nfor k := range nested[0][1]\n    print k nested[0][1][k]\nend\n",
+		// maps held in any
+		"aa := [m 1 \"s\" m2] * 2\nprint aa (typeof aa)\nmm := aa[4].({}num)\nprint mm (typeof aa[7])\nfor k := range mm\n    print k mm[k]\nend\nprint (aa[0] == aa[4]) (aa[3] == aa[7])\n",
+		// maps of maps, and maps holding arrays of maps
+		"mx := {p:m q:m2 r:{z:1 y:2 x:3 w:4 v:5}}\nbb := [mx] * 2\nprint bb[1] (typeof bb)\nfor k := range bb[1]\n    print k bb[1][k]\n    for j := range bb[1][k]\n        print j\n    end\nend\n",
+		// the copy is independent and keeps growing in insertion order
+		"row[1].zz = 99\ndel row[0] \"" + c08Keys[perm[0]] + "\"\nrow[1][\"new key\"] = 5\nprint row m\nfor k := range row[1]\n    print k\nend\n",
+		// repetition of a repetition, slices and concatenation of copies
+		"big := ([m2] * 2 + [m]) * 2\nprint big[3:] (len big)\nfor el := range big\n    for k := range el\n        print k el[k]\n    end\nend\n",
+		// empty and single-key maps, repetition count 0 and 1
+		"ee := [{} {only:1} m] * 1\nprint ee (typeof ee) ([m] * 0)\nfor k := range ee[2]\n    print k\nend\n",
+		// passing a copy through a function and test
+		"func keys:[]string mm:{}num\n    r:[]string\n    for k := range mm\n        r = r + [k]\n    end\n    return r\nend\nprint (keys row[1]) (keys m) (join (keys row[0]) \",\")\ntest (keys row[1]) (keys m)\ntest row[0] m\n",
+	}
+	p := rng.Perm(len(shapes))
+	for _, i := range p[:2+rng.Intn(4)] {
+		b.WriteString(shapes[i])
+	}
+	return c08Prog{Family: "map-deepcopy-by-repetition", Src: b.String(), N: n}
+}
+
 func genMapsMisc(rng *rand.Rand) c08Prog {
 	n := c08PickN(rng)
 	perm := rng.Perm(n)
@@ -944,14 +987,16 @@ func genC08(rng *rand.Rand) c08Prog {
 		return genCombine(rng)
 	case k < 62:
 		return genEquals(rng)
-	case k < 70:
+	case k < 68:
 		return genMapsMisc(rng)
 	case k < 78:
+		return genDeepCopy(rng)
+	case k < 84:
 		return genEvents(rng)
-	case k < 88:
+	case k < 90:
 		return genValid(rng)
 	}
-	bases := []func(*rand.Rand) c08Prog{genUnused, genMapLit, genFont, genCombine, genMapsMisc, genEvents, genValid}
+	bases := []func(*rand.Rand) c08Prog{genUnused, genMapLit, genFont, genCombine, genMapsMisc, genDeepCopy, genEvents, genValid}
 	return genMalformed(rng, bases[rng.Intn(len(bases))])
 }
 
@@ -974,6 +1019,7 @@ var c08Corpus = []c08Prog{
 	{Family: "corpus-mapEquals", N: 8, Src: "m1 := {a:0 b:1 c:0 d:1 e:0 f:1 g:0 h:1}\nm2 := {h:3 g:2 f:3 e:2 d:3 c:2 b:3 a:2}\nprint (m1 == m2) (m1 != m2)\ntest m1 m2\n",
 		Witness: `(equals ("a" () 2) ("b" 1 3))`},
 	{Family: "corpus-wrapAny-panic-location", N: 8, Src: "x := [1]\nm := {a:[2] b:x c:x d:x e:x f:x g:x h:[\"a\"]}\nprint m (typeof m)\n"},
+	{Family: "corpus-deepCopy-map-order", N: 8, Src: "m := {h:1 g:2 f:3 e:4 d:5 c:6 b:7 a:8}\nrow := [m] * 3\nprint row[1]\nfor k := range row[2]\n    print k\nend\naa := [m 1] * 2\nprint aa[2] ([[m]] * 2)\n"},
 	{Family: "corpus-design-7-6", N: 2, Dep: true, Src: "a := 1\nb := 2\n"},
 	{Family: "corpus-design-7-8", N: 3, Dep: true, Src: "font {size:\"a\" weight:\"b\" style:1}\n"},
 }
@@ -1109,7 +1155,7 @@ func c08CheckBatch(cfg Config, r *Result, model *Model, progs []c08Prog, inproc 
 }
 
 func runC08(cfg Config, r *Result) {
-	r.Rule = "programs from 9 families biased to expose Go map order (4-8 unused variables per scope; map literals with 4-8 values of which most print; font with 3-8 properties of which several are bad; map literals mixing literal/variable/empty composite types; == on maps incl. an ill-typed value; maps printed/compared/tested/copied/iterated; 3-6 event handlers with 8 delivered events; mixed valid programs with seeded rand, read, drawing → SVG; token-level mutations of all of these); each program is parsed/formatted/run/rendered 8x in-process and 3x in fresh processes and all observables (parse error text and order, Format(), class, error text, platform trace, SVG+stdout of pkg/cli, name sets) must be identical; non-trivial = order-relevant map with >= 4 entries, or a mixed/malformed program; distinct = distinct program text."
+	r.Rule = "programs from 10 families biased to expose Go map order (4-8 unused variables per scope; map literals with 4-8 values of which most print; font with 3-8 properties of which several are bad; map literals mixing literal/variable/empty composite types; == on maps incl. an ill-typed value; maps printed/compared/tested/copied/iterated; arrays (also nested, also of any) holding maps with 4-8 keys deep-copied by array repetition and then printed/ranged/compared/asserted/mutated; 3-6 event handlers with 8 delivered events; mixed valid programs with seeded rand, read, drawing → SVG; token-level mutations of all of these); each program is parsed/formatted/run/rendered 8x in-process and 3x in fresh processes and all observables (parse error text and order, Format(), class, error text, platform trace, SVG+stdout of pkg/cli, name sets) must be identical; non-trivial = order-relevant map with >= 4 entries, or a mixed/malformed program; distinct = distinct program text."
 	if cfg.Replay != "" {
 		c08Replay(cfg, r)
 		return
